@@ -369,6 +369,22 @@ Definition valid_jobs (jobs : list job) : bool :=
 Definition n_machines (jobs : list job) : nat :=
   Z.to_nat (fold_left (fun acc (o : op) => Z.max acc (fst o + 1)) (concat jobs) 0).
 
+(* the part after the validation loop *)
+Definition solve_valid (jobs : list job) (rl : rule) (local_search : bool) (max_iter : Z)
+    (cb : option (nat -> bool)) (interval : Z) (orc : list nat) : outcome * list nat :=
+  match dispatch jobs (n_machines jobs) rl orc with
+  | None => (Fail, orc)
+  | Some (s0, orc1) =>
+      let mk0 := makespan s0 in
+      if negb local_search then (Ok s0 mk0 Feasible, orc1)
+      else
+        match ls_loop jobs cb interval (Z.to_nat max_iter) 1
+                {| cur := s0; cur_mk := mk0; best := s0; best_mk := mk0; no_imp := 0 |} orc1 with
+        | None => (Fail, orc1)
+        | Some (st, orc2) => (Ok (best st) (best_mk st) Feasible, orc2)
+        end
+  end.
+
 Definition solve (jobs : list job) (rl : rule) (local_search : bool) (max_iter : Z)
     (cb : option (nat -> bool)) (interval : Z) (orc : list nat) : outcome * list nat :=
   match jobs with
@@ -376,21 +392,9 @@ Definition solve (jobs : list job) (rl : rule) (local_search : bool) (max_iter :
   | _ :: _ =>
       if negb (valid_jobs jobs) then (ErrValue, orc)
       else match rl with
-      | BadRule => (ErrValue, orc)    (* every job is non-empty, so the first dispatch pass reaches the raise *)
-      | _ =>
-        match dispatch jobs (n_machines jobs) rl orc with
-        | None => (Fail, orc)
-        | Some (s0, orc1) =>
-            let mk0 := makespan s0 in
-            if negb local_search then (Ok s0 mk0 Feasible, orc1)
-            else
-              match ls_loop jobs cb interval (Z.to_nat max_iter) 1
-                      {| cur := s0; cur_mk := mk0; best := s0; best_mk := mk0; no_imp := 0 |} orc1 with
-              | None => (Fail, orc1)
-              | Some (st, orc2) => (Ok (best st) (best_mk st) Feasible, orc2)
-              end
-        end
-      end
+           | BadRule => (ErrValue, orc)   (* every job is non-empty, so the first dispatch pass reaches the raise *)
+           | _ => solve_valid jobs rl local_search max_iter cb interval orc
+           end
   end.
 
 (* ------------------------------------------------------------------ observables for the correspondence *)
